@@ -301,7 +301,11 @@ fn run_uds(u: &Uds, o: &mut Outcome) -> Result<(), Failure> {
         if u2.up_before == 0 {
             server = Some(bring_up(sh.clone())?);
         }
-        let ep = tonic::transport::Endpoint::try_from(uri).map_err(|e| format!("{e:?}"))?;
+        let mut ep = tonic::transport::Endpoint::try_from(uri).map_err(|e| format!("{e:?}"))?;
+        if u2.calls % 2 == 0 {
+            // "no connect timeout", spelled as the largest one
+            ep = ep.connect_timeout(Duration::MAX);
+        }
         let mut eager = None;
         let ch = if u2.lazy {
             ep.connect_lazy()
